@@ -13,6 +13,8 @@ mod spec;
 mod c01;
 mod c02;
 mod c03;
+mod c04;
+mod c10;
 mod c05;
 
 use runner::Tier;
@@ -22,7 +24,9 @@ fn dispatch_replay(prop: &str, w: &serde_json::Value) -> Vec<(String, String)> {
         "C01" => c01::replay(w),
         "C02" => c02::replay(w),
         "C03" => c03::replay(w),
+        "C04" => c04::replay(w),
         "C05" => c05::replay(w),
+        "C10" => c10::replay(w),
         _ => vec![],
     }
 }
@@ -62,7 +66,9 @@ fn main() {
         "C01" => c01::run(tier),
         "C02" => c02::run(tier),
         "C03" => c03::run(tier),
+        "C04" => c04::run(tier),
         "C05" => c05::run(tier),
+        "C10" => c10::run(tier),
         other => {
             eprintln!("unknown property {}", other);
             2
